@@ -13,6 +13,15 @@ CHECKS = {
     'C04': dict(level='exploration', ref='7 C04', technique='TLA+ derivation plans (KeySchedule.tla: structural theorems as ASSUME, plans via JsonSerialize) evaluated with stdlib HMAC; wire oracle over every suite',
                 text='TLC checks the structural theorems of KeySchedule.tla (contiguous disjoint slices, prf+ counters 1..n <= 255, old SK_d keys the rekey SKEYSEED, initiator direction first) over all suites and writes the plans; the harness evaluates the plans on the wire values and DH private scalars of real sessions for every supported suite (plus IKE_SA rekey, ESP/AH, PFS) and compares every octet of both key rings and of the keys in the NEWSA requests; prf+ for all output lengths; DH primes from the RFC 3526 formula, RFC 5903 curves self-validated, fixed-width public values, shared secrets incl. leading zeros.',
                 note='numeric evaluation outside TLC (32-bit integers); SHA/AES primitives trusted.'),
+    'C05': dict(level='exploration', ref='7 C05', technique='TLA+ executable encoder / chain parser (Wire.tla, self-consistency theorems checked by TLC) as oracle; vectors via JsonSerialize compared with Message.to_bytes / parse',
+                text='TLC checks ParseChain o EncChain = id and the header length theorem on Wire.tla over the enumerated universe and writes (abstract message, bytes) vectors; each is compared five ways with the library: to_bytes = RFC bytes, parse = content (unknown non-critical skipped, critical rejected), idempotence, the same list inside an encrypted payload (opened with independent AES/HMAC, and the independently sealed message parsed back), and the structured dump (payload names in order; every field value discriminated).',
+                note='universe of representative payload instances, singles exhaustively, pairs exhaustively (quick: sampled); encoder written from RFC 7296 section 3.'),
+    'C06': dict(level='exploration', ref='7 C06', technique='TLA+ mutation families and total chain parser (Wire.tla) as verdict oracle; line-counted Message.parse over families and corpora',
+                text='TLC enumerates the LenMut / NextMut families over base chains with ParseChain delivering a verdict for each (totality by construction); the harness parses every mutant, every 16-bit field position / truncation / octet mutation of authentic datagrams of each exchange, inner chains mutated and re-sealed with the right keys, and random strings, under right / wrong / no keys and header-only, judging outcome class and an executed-line budget linear in the input length.',
+                note='totality of code is sampled, not proved; budget 4000 + 600*len executed lines.'),
+    'C07': dict(level='exploration', ref='7 C07', technique='TLA+ SK framing arithmetic (Wire.tla SkFraming, checked by TLC) + independent AES-CBC / HMAC; exhaustive tamper menu; ClearOnlyInInit monitored on Ike.tla replays',
+                text='Every inner length modulo the block size x AES key length x integrity algorithm is sealed by the library and compared with the specification framing (pad, lengths, MAC coverage, truncation) and opened with independent primitives, and the independently sealed message is parsed back; every octet x bit of one protected message per exchange type (incl. empty payload lists), every truncation, extensions and other integrity keys must be rejected with a protocol error; all replays check that nothing but the SK payload travels in the clear after IKE_SA_INIT.',
+                note='AES / HMAC primitives trusted; quick tier flips bits {0,7}, thorough all 8.'),
     'C08': dict(level='model_checking', ref='7 C08', technique='TLA+ model (Message-ID window of Ike.tla) + TLC + replay of every transition; replay storm on random schedules',
                 text=IKE + '; beyond the bound, seeded random schedules in which every datagram already delivered is re-delivered after every step and authentic requests with future IDs are injected (oracle from the property statement).',
                 note='authentic traffic only; two endpoints; budgets (triggers, duplicates, losses) per scenario.'),
